@@ -6,6 +6,7 @@ import (
 	crand "crypto/rand"
 	"fmt"
 	"math/big"
+	"reflect"
 
 	"github.com/cloudflare/circl/group"
 	"github.com/cloudflare/circl/oprf"
@@ -814,8 +815,12 @@ func runC16(c *h.Ctx) {
 				o := ru.mk()
 				var first, second []byte
 				var ok1, ok2 bool
+				var held reusable // a by-value copy of the object taken after the first decode (a request set aside, queued)
 				pan, msg := h.Protect(func() {
 					ok1 = o.Unmarshal(append([]byte{}, a...))
+					cpv := reflect.New(reflect.TypeOf(o).Elem())
+					cpv.Elem().Set(reflect.ValueOf(o).Elem())
+					held, _ = cpv.Interface().(reusable)
 					first = o.Marshal()
 				})
 				snap := append([]byte{}, first...)
@@ -839,7 +844,46 @@ func runC16(c *h.Ctx) {
 				if !bytes.Equal(first, snap) {
 					c.Violation("values handed out earlier keep their contents: an encoding returned by Marshal changed when the object decoded another message and was marshalled again", det)
 				}
+				if held != nil {
+					var hm []byte
+					if p3, _ := h.Protect(func() { hm = held.Marshal() }); p3 || !bytes.Equal(hm, a) {
+						c.Violation("values handed out earlier keep their contents: a copy of the decoded request set aside before the object decoded another message no longer encodes to the message it was decoded from", det)
+					}
+				}
 				_ = second
+			}
+		}
+	}
+	// the caller's own request list behind a batch request, and a pending type-3 request state, across a decode into the
+	// object (or a copy of it) they gave rise to
+	{
+		a1, _ := type1.NewBasicPrivateClient().CreateTokenRequest(chal, rnd(c, 32), kid1, iss1.TokenKey())
+		a2, _ := type2.NewBasicPublicClient().CreateTokenRequest(chal, rnd(c, 32), iss2.TokenKeyID(), iss2.TokenKey())
+		b1, _ := type1.NewBasicPrivateClient().CreateTokenRequest(chal, rnd(c, 32), kid1, iss1.TokenKey())
+		list := []tokens.TokenRequestWithDetails{a1.Request(), a2.Request()}
+		keep := append([]tokens.TokenRequestWithDetails{}, list...)
+		brq, err := batched.BatchedClient{}.CreateTokenRequest(list)
+		other, _ := batched.BatchedClient{}.CreateTokenRequest([]tokens.TokenRequestWithDetails{b1.Request(), b1.Request()})
+		if err == nil {
+			sibling, _ := batched.BatchedClient{}.CreateTokenRequest(list)
+			before := append([]byte{}, sibling.Marshal()...)
+			h.Protect(func() { brq.Unmarshal(other.Marshal()) })
+			c.Count("reuse:callers-list-behind-a-batch-request", 1, "")
+			if list[0] != keep[0] || list[1] != keep[1] || !bytes.Equal(sibling.Marshal(), before) {
+				c.Violation("decoding into a batch request built from the caller's list rewrites the caller's list (or a sibling request built from it)", nil)
+			}
+		}
+		stP, errP := env.request(client3, chal, rnd(c, 32), rnd(c, 48), "origin.example")
+		stQ, errQ := env.request(client3, chal, rnd(c, 32), rnd(c, 48), "origin.example")
+		if errP == nil && errQ == nil {
+			respP, _, _ := env.issuer.Evaluate(stP.Request().Marshal())
+			encBefore := append([]byte{}, stP.Request().EncryptedTokenRequest...)
+			scratch := *stP.Request() // a by-value copy used as decode target for a foreign message
+			h.Protect(func() { scratch.Unmarshal(stQ.Request().Marshal()) })
+			_, errF := stP.FinalizeToken(respP)
+			c.Count("reuse:copy-of-a-pending-request-as-decode-target", 1, "")
+			if !bytes.Equal(stP.Request().EncryptedTokenRequest, encBefore) || errF != nil {
+				c.Violation("decoding a foreign message into a COPY of a pending request changes the pending request (its ciphertext / its finalization)", map[string]any{"finalize_err": errF != nil})
 			}
 		}
 	}
